@@ -1,7 +1,7 @@
 CONSTANTS
   NSlots = 12
   Glob = "calls"
-  Abs = FALSE
+  Abs = TRUE
   Lean = FALSE
   Vocab = "single"
 INIT Init
